@@ -118,7 +118,19 @@ pub fn case(ctx: &mut Ctx, idx: u64) {
             ..Mix::default()
         }
     };
-    let Some((mc, map)) = gen::gen_domain_map(&mut rng, &mx, Domain::Adversarial) else {
+    // one case in 120 (thorough: 400): a long dense map (thousands of non-zero strain sections) - anything that treats
+    // long peak lists differently per feature only shows there
+    let long = rng.below(if ctx.thorough() { 400 } else { 120 }) == 0;
+    let generated = if long {
+        let file_mode = *rng.pick(&[0u8, 0, 2, 1, 3]);
+        let n = *rng.pick(&[2500usize, 6000, 8000]);
+        let text = crate::osu::long_file_n(&mut rng, file_mode, n).render();
+        ctx.count("class:long-dense-map");
+        maps::decode(&text).map(|m| (gen::MapCase { text, tag: "long".into() }, m))
+    } else {
+        gen::gen_domain_map(&mut rng, &mx, Domain::Adversarial)
+    };
+    let Some((mc, map)) = generated else {
         ctx.count("skipped_no_domain_map");
         return;
     };
@@ -146,10 +158,18 @@ pub fn case(ctx: &mut Ctx, idx: u64) {
         if rng.chance(0.3) {
             spec.passed = Some(rng.below(map.hit_objects.len() as u64 + 2) as u32);
         }
-        let sc = sets::gen_scorespec(&mut rng, map.hit_objects.len() as u32 + 2);
+        let mut sc = sets::gen_scorespec(&mut rng, map.hit_objects.len() as u32 + 2);
+        if long {
+            // a fully specified state: the hit-result search of generate_state is cubic in the object count for mania
+            // (a time budget matter, judged by C05 inside its <= 400 objects domain), not what C10 compares
+            sc = sets::ScoreSpec {
+                state: Some(sets::gen_state(&mut rng, map.hit_objects.len() as u32 + 1)),
+                ..sets::ScoreSpec::default()
+            };
+        }
         let states: Vec<_> = (0..4).map(|_| sets::gen_state(&mut rng, map.hit_objects.len() as u32 + 1)).collect();
         let d = spec.to_difficulty(mode);
-        let dg = spec.without_passed().to_difficulty(mode);
+        let dg = spec.for_gradual().to_difficulty(mode);
         let detail = format!("mode={mname} src={} settings=[{}]", mc.tag, spec.describe());
         ctx.count(&format!("mode:{mname}"));
         let jobs: Vec<(&str, Box<dyn FnOnce() -> String + '_>)> = vec![
